@@ -351,6 +351,54 @@ Gen<Case> gen_case() {
                                     return std::get<2>(t) + s;
                                 }),
                        "exact-tie");
+    // 7a short numerals right next to a tie: the exact midpoint between two adjacent doubles cut to 17-21 significant digits
+    // (just below the midpoint: rounds down) and that decimal plus one unit in its last place (just above: rounds up). They
+    // sit within 10^-17 .. 10^-21 (relative) of the decision point, so a multiplier or a power-of-five table entry that is
+    // off in its last digits flips the result; the decimal exponent is spread over the whole range, every table entry is used
+    auto near_tie = finish(gen::map(gen::tuple(finite_positive_double(), pbt::range<int>(17, 21), pbt::range<int>(0, 1), sign_gen(), pbt::range<int>(0, 2)),
+                                    [](std::tuple<double, int, int, std::string, int> t) {
+                                        double d = std::get<0>(t);
+                                        if (d > 1.7e308) {
+                                            d = 1.0e308;
+                                        }
+                                        std::string sci = bigdec::to_scientific(bigdec::midpoint_above(d)); // d.ddd...e[+-]x
+                                        size_t      ep  = sci.find('e');
+                                        std::string mant = sci.substr(0, ep), ex = sci.substr(ep);
+                                        std::string digits;
+                                        for (char ch : mant) {
+                                            if (ch != '.') {
+                                                digits.push_back(ch);
+                                            }
+                                        }
+                                        const size_t n = size_t(std::get<1>(t));
+                                        if (digits.size() <= n) {
+                                            return std::get<3>(t) + sci; // the midpoint itself is that short: an exact tie
+                                        }
+                                        digits.resize(n); // cut: strictly below the midpoint (the dropped tail is not all zeros... or it is the tie)
+                                        if (std::get<2>(t) == 1) { // one unit in the last kept place up: above the midpoint
+                                            size_t k = n;
+                                            while (k > 0) {
+                                                --k;
+                                                if (digits[k] != '9') {
+                                                    ++digits[k];
+                                                    break;
+                                                }
+                                                digits[k] = '0';
+                                            }
+                                            if (digits[0] == '0') { // 99..9 -> 100..0: keep the length, shift the exponent
+                                                digits = "1" + digits.substr(0, n - 1);
+                                                int xv = atoi(ex.c_str() + 1) + 1;
+                                                ex     = "e" + std::to_string(xv);
+                                            }
+                                        }
+                                        std::string out = digits.substr(0, 1) + "." + digits.substr(1) + ex;
+                                        if (std::get<4>(t) == 1) { // the same value spelled without a fraction: ddddde(x - n + 1)
+                                            int xv = atoi(ex.c_str() + 1) - int(n) + 1;
+                                            out    = digits + "e" + std::to_string(xv);
+                                        }
+                                        return std::get<3>(t) + out;
+                                    }),
+                           "near-tie");
     // 7b ties and near-ties whose rounding carries into the next power of two (mantissa all ones -> 1.000 x 2^(k+1))
     auto carry = finish(gen::map(gen::tuple(pbt::range<int>(-60, 80), pbt::range<int>(0, 4), pbt::range<int>(0, 1), sign_gen()),
                                  [](std::tuple<int, int, int, std::string> t) {
@@ -456,7 +504,7 @@ Gen<Case> gen_case() {
                      return std::get<0>(t) + m;
                  }),
         "malformed", 1);
-    return gen::oneOf(ints, bounds, decimals, decimals, intexp, longs, leadzeros, spelled, spelled, ties, carry, nines, padded, compensated, overflow, overflow_plain, subnormal,
+    return gen::oneOf(ints, bounds, decimals, decimals, intexp, longs, leadzeros, spelled, spelled, ties, near_tie, near_tie, carry, nines, padded, compensated, overflow, overflow_plain, subnormal,
                       zeros, malformed);
 }
 
